@@ -288,7 +288,9 @@ func childBind() {
 				wv := want.Elem().Interface()
 				l.Deep = reflect.DeepEqual(got, wv)
 				gj, wj := mustJSON(got), mustJSON(wv)
-				if string(gj) == string(wj) {
+				gn, _ := normJSON(gj)
+				wn, _ := normJSON(wj)
+				if reflect.DeepEqual(gn, wn) { // equal as JSON values (a json.Number literal may be respelled)
 					l.OK = true
 				} else {
 					l.Symp = "value-differs"
